@@ -317,13 +317,16 @@ fn parse_size(size: &str) -> Result<i64, ()> {
 
         size.parse::<i64>().map_err(|_| ())
     } else {
-        let last_char = size.chars().last().unwrap().to_ascii_uppercase();
-        let number: i64 = size[0..size.len() - 1].parse().map_err(|_| ())?;
+        // Split off the last character, which is not necessarily a single byte
+        let last_char = size.chars().last().unwrap();
+        let number: i64 = size[0..size.len() - last_char.len_utf8()]
+            .parse()
+            .map_err(|_| ())?;
 
-        match last_char {
-            'K' => Ok(number * 1024),
-            'M' => Ok(number * 1024 * 1024),
-            'G' => Ok(number * 1024 * 1024 * 1024),
+        match last_char.to_ascii_uppercase() {
+            'K' => number.checked_mul(1024).ok_or(()),
+            'M' => number.checked_mul(1024 * 1024).ok_or(()),
+            'G' => number.checked_mul(1024 * 1024 * 1024).ok_or(()),
             '0'..='9' => size.parse::<i64>().map_err(|_| ()),
             _ => Err(()),
         }
